@@ -84,6 +84,21 @@ def run(ctx):
             steps.append(dict(msg=rng.choice(pool), now=t, printf=rng.random() < 0.3))
         scripts.append(dict(interval=iv, steps=steps))
     trace = run_driver(ctx, scripts)
+    # the limiter as the motion processor uses it: every line the real processor prints during fault-heavy runs
+    # (refused starts, failing sinks, resets, bad frames, test recordings) is an output of its limiter
+    import fam_proc
+    pscripts = [fam_proc.gen_random_script(rng, "C12") for _ in range(150 if tier == "quick" else 2000)]
+    ptrace = fam_proc.drive(ctx, pscripts, "c20proc", env=dict(VERIF_LOGS="1"))
+    plines = 0
+    with open(trace, "a") as f:
+        cur = None
+        for e in vlib.read_ndjson(ptrace):
+            if e["ev"] == "cfg":
+                cur = e["script"]
+                f.write(json.dumps(dict(ev="pnew", script=cur)) + "\n")
+            for ln in e.get("logs") or []:
+                plines += 1
+                f.write(json.dumps(dict(ev="pout", script=cur, out=ln["out"], now=ln["now"])) + "\n")
     events = vlib.read_ndjson(trace)
     viol, nev = judge(ctx, trace)
     owner, cur, starts = [], -1, {}
@@ -98,6 +113,12 @@ def run(ctx):
                 continue
             seen.add(t)
             si = owner[line - 1]
+            ob = events[line - 1]
+            if ob["ev"] == "pout":
+                rp = vlib.save_replay(ctx, t.replace(":", "_"), dict(family="loglim", property="C20", clause=t,
+                                      proc_script=pscripts[ob["script"]], observed=ob))
+                violations.append(dict(key=t, replay=rp, what=json.dumps(ob)[:200]))
+                continue
             rp = vlib.save_replay(ctx, t.replace(":", "_"), dict(family="loglim", property="C20", clause=t,
                                   script=scripts[si] if si >= 0 else None, observed=events[line - 1]))
             violations.append(dict(key=t, replay=rp, what=json.dumps(events[line - 1])[:200]))
@@ -108,6 +129,7 @@ def run(ctx):
                     traces_validated_against_impl=len(scripts), samples=[dict(script=scripts[0], trace=events[:5])],
                     exhaustive=True, design=dict(Interval=I, MaxTime=consts["MaxTime"]), cover_edges=ne,
                     cover_scripts=ncover, random_scripts=nrand, events_judged=nev, calls=len(prints), suppressed=supp,
+                    processor_scripts=len(pscripts), processor_lines_judged=plines,
                     recorder_interval_checked=any(e["ev"] == "const" for e in events),
                     evaluations=len(scripts), distinct_nontrivial=distinct,
                     rule="transition cover of LogReplay + seeded histories with arrivals at interval-1/interval/interval+1; "
@@ -117,6 +139,20 @@ def run(ctx):
 
 def replay(ctx, path):
     rp = json.load(open(path))
+    if rp.get("proc_script"):
+        import fam_proc
+        ptrace = fam_proc.drive(ctx, [rp["proc_script"]], "replayproc", env=dict(VERIF_LOGS="1"))
+        trace = ctx.path("run", "replayproc.log.ndjson")
+        with open(trace, "w") as f:
+            f.write(json.dumps(dict(ev="pnew", script=0)) + "\n")
+            for e in vlib.read_ndjson(ptrace):
+                for ln in e.get("logs") or []:
+                    f.write(json.dumps(dict(ev="pout", script=0, out=ln["out"], now=ln["now"])) + "\n")
+        viol, _ = judge(ctx, trace, "replaymon")
+        tags = sorted({t for (_, ts) in viol for t in ts})
+        if tags:
+            print("VIOLATION property=C20 replay=%s" % path); print("  clauses:", ", ".join(tags)); return 1
+        print("replay: no clause fired"); return 0
     if not rp.get("script"):
         print("replay: constant check, re-run the check"); return 0
     trace = run_driver(ctx, [rp["script"]], "replay")
